@@ -50,3 +50,13 @@ Theorem C35_validate_spec : forall e : epoch, validate e = 0%N ->
    exists x, In x (lst (e_read e)) /\ In x (lst (e_write e))).
 Proof. exact validate_ok_spec. Qed.
 Print Assumptions C35_validate_spec.
+
+(* epoch round-trip — PARTIAL. Full statement: every valid epoch reads back Equal from its printed form and from its
+   MarshalJSON form. Proved here for every valid epoch (entries < 2^32) whose printed form is a short form (`0`, `N`, `N*`),
+   through Epoch.fromString. Missing: the structured forms, which go through encoding/json (not modelled); for those the
+   model's printed bytes are compared with the implementation's, and the implementation's own parse-back is monitored. *)
+Theorem C35_epoch_short_roundtrip_partial : forall e : epoch,
+  validate e = 0%N -> wf32 e -> is_short (epoch_string e) = true ->
+  exists e', from_string (epoch_string e) = Some e' /\ epoch_equal e e' = true.
+Proof. exact epoch_short_roundtrip. Qed.
+Print Assumptions C35_epoch_short_roundtrip_partial.
